@@ -367,7 +367,13 @@ fn gather_features(
         }
     } else {
         for feature in input_features {
-            features.push_front(feature.to_string());
+            // (a built-in feature may enable other built-in features, e.g. side-by-side
+            // enables line-numbers)
+            if builtin_features.contains_key(feature) {
+                gather_builtin_features_recursively(feature, &mut features, builtin_features, opt);
+            } else {
+                features.push_front(feature.to_string());
+            }
         }
     }
 
